@@ -6,12 +6,37 @@ Require Import RV.Lib.PyStr RV.Proofs.PyStrLemmas RV.Model.LoginCache.
 Lemma dval_eqb_eq : forall a b, dval_eqb a b = true <-> a = b.
 Proof.
   intros a b; split.
-  - destruct a as [|s l p|k s l p], b as [|s' l' p'|k' s' l' p']; cbn [dval_eqb]; intros H; try discriminate; try reflexivity.
-    + apply andb_prop in H as [H Hp]. apply andb_prop in H as [Hs Hl].
-      apply Z.eqb_eq in Hs. apply eqs_eq in Hl. apply eqs_eq in Hp. congruence.
-    + apply andb_prop in H as [H Hp]. apply andb_prop in H as [H Hl]. apply andb_prop in H as [Hk Hs].
-      apply Z.eqb_eq in Hs. apply eqs_eq in Hl. apply eqs_eq in Hp. apply eqs_eq in Hk. congruence.
-  - intros <-. destruct a as [|s l p|k s l p]; cbn [dval_eqb]; rewrite ?Z.eqb_refl, ?eqs_refl; reflexivity.
+  - destruct a as [|s c|k s c], b as [|s' c'|k' s' c']; cbn [dval_eqb]; intros H; try discriminate; try reflexivity.
+    + apply andb_prop in H as [Hs Hc].
+      apply Z.eqb_eq in Hs. apply eqs_eq in Hc. congruence.
+    + apply andb_prop in H as [H Hc]. apply andb_prop in H as [Hk Hs].
+      apply Z.eqb_eq in Hs. apply eqs_eq in Hc. apply eqs_eq in Hk. congruence.
+  - intros <-. destruct a as [|s c|k s c]; cbn [dval_eqb]; rewrite ?Z.eqb_refl, ?eqs_refl; reflexivity.
+Qed.
+
+(* ---------------------------------------------------------------- the key formats of the two dictionaries *)
+(* The digest covers salt ++ login ++ password: it does NOT determine (login, password). *)
+Lemma cache_digest_not_injective :
+  exists l p l' p' s, (l, p) <> (l', p') /\ cache_digest l p s = cache_digest l' p' s.
+Proof.
+  exists [97%N; 98%N], [99%N], [97%N], [98%N; 99%N], 0%Z. split; [discriminate|reflexivity].
+Qed.
+
+(* Under one and the same login (the successful cache is keyed by the login) it determines the password. *)
+Lemma cache_digest_same_login : forall l p p' s s',
+  cache_digest l p s = cache_digest l p' s' -> s = s' /\ p = p'.
+Proof.
+  intros l p p' s s' H. unfold cache_digest in H. inversion H as [[Hs Hc]].
+  split; [reflexivity|]. eapply app_inv_head. exact Hc.
+Qed.
+
+(* The key of the failed cache determines (login, password) -- exactly because the login is its prefix:
+   equal prefixes give equal logins, and then equal concatenations give equal passwords. *)
+Lemma failed_key_inj : forall s s' l p l' p',
+  failed_key s l p = failed_key s' l' p' -> l = l' /\ p = p'.
+Proof.
+  intros s s' l p l' p' H. unfold failed_key in H. inversion H as [[Hl Hs Hc]]. subst l'.
+  split; [reflexivity|]. eapply app_inv_head. exact Hc.
 Qed.
 
 Section DictLemmas.
